@@ -253,6 +253,16 @@ fn check_composite_inner(s: u64, r: &mut Report) {
             let d = $d.samples(&mut Xorshift64(s)).take(4).last();
             a == Some(manual[2].clone()) && b == Some(manual[1].clone()) && c == vec![manual[0].clone(), manual[2].clone(), manual[4].clone()] && d == Some(manual[3].clone())
         }}; }
+        // the iterator draws from the caller's generator: afterwards it stands where the same number of sample() calls leave it
+        macro_rules! adv { ($d:expr) => {{
+            let mut g = Xorshift64(s); for _ in 0..3 { $d.sample(&mut g); }
+            let mut h = Xorshift64(s); let n = $d.samples(&mut h).take(3).count();
+            let next_ok = $d.sample(&mut h) == $d.sample(&mut g);
+            n == 3 && next_ok && h.0 == g.0
+        }}; }
+        if !(adv!(Uniform(0..10)) && adv!(Uniform(-1.0f32..1.0)) && adv!(Bernoulli(0.5)) && adv!(Uniform([-1.0f32, 2.0]..[1.0, 3.0])) && adv!(UnitCircle) && adv!(VectorsInUnitBall)) {
+            r.violation(format!("samples-generator|s={s:#x}"), format!("after samples().take(3) from state {s:#x} the generator is not in the state three sample() calls leave it in"), obj! {"kind" => "composite", "s" => format!("{s:#x}")}); return;
+        }
         let okn = seq!(Uniform([-1.0f32, 2.0, 10.0]..[1.0, 3.0, 20.0])) && seq!(Uniform(0..10)) && seq!(Uniform(-1.0f32..1.0)) && seq!(Bernoulli(0.5)) && seq!((Uniform(0..10), Bernoulli(0.5)))
             && seq!(Uniform(vec3::<f32, ()>(-1.0, 2.0, 10.0)..vec3(1.0, 3.0, 20.0))) && seq!(Uniform(pt2::<f32, ()>(-1.0, 2.0)..pt2(1.0, 3.0))) && seq!(UnitCircle) && seq!(VectorsOnUnitDisk) && seq!(UnitSphere) && seq!(VectorsInUnitBall) && seq!(PointsInUnitBall) && seq!(PointsOnUnitDisk);
         if !okn { r.violation(format!("samples-iterator|s={s:#x}"), format!("samples() consumed through nth / skip / step_by / take(..).last() from state {s:#x} does not yield the values of repeated sample() calls"), obj! {"kind" => "composite", "s" => format!("{s:#x}")}); return; }
